@@ -3238,7 +3238,14 @@ class FuncProcessLines(ValueFunc):
                 args = callback_args(callback, [ValueString(line)], pos)
                 return callback.execute(args, env, pos)
 
-            return ValueInt(inp.process(cb))
+            try:
+                return ValueInt(inp.process(cb))
+            except (CklRuntimeError, CklSyntaxError, RecursionError):
+                raise       # an error of the callback, not of the input
+            except Exception:
+                raise CklRuntimeError(
+                    ValueString("ERROR"), "Cannot read from input", pos
+                )
         elif inparg.isList():
             lst = inparg.asList().value
             for element in lst:
